@@ -1478,7 +1478,19 @@ fn run_cf(ctx: &mut Ctx, idx: usize, u: usize, cfg: Vec<(String, Feat)>, tr: Vec
                         }
                     }
                 }
-                (format!("err {}", err_s(&e)), fails, 0usize, "cf_collect_rejected")
+                // several offending entries: which one is reported depends on HashMap order
+                let mut kinds = std::collections::BTreeSet::new();
+                if let UserPart::Features(fs) = &us {
+                    for (n, f) in fs {
+                        match model_ref.iter().find(|e| e.0 == *n) {
+                            None => { kinds.insert("unk"); }
+                            Some((_, old)) if old.to_sf().get_feature_type() != f.to_sf().get_feature_type() => { kinds.insert("ftype"); }
+                            _ => {}
+                        }
+                    }
+                }
+                let shown = if kinds.len() == 2 && (err_s(&e) == "unk" || err_s(&e) == "ftype") { "ftype|unk" } else { err_s(&e) };
+                (format!("err {}", shown), fails, 0usize, "cf_collect_rejected")
             }
             Ok(fs) => {
                 if matches!(us, UserPart::Malformed) {
@@ -1617,7 +1629,7 @@ fn good_feature_json(rng: &mut Rng, f: &Feat) -> serde_json::Value {
         // a later variant's keys next to an earlier variant's: the earlier variant wins
         5 => {
             let mut o = plain.as_object().cloned().unwrap_or_default();
-            if !o.contains_key("distance_unit") && !o.contains_key("time_unit") {
+            if o.contains_key("energy_unit") {
                 o.insert("type".to_string(), json!("soc"));
                 o.insert("unit".to_string(), json!("percent"));
                 o.insert("format".to_string(), json!({"boolean": {"initial": true}}));
@@ -2216,6 +2228,7 @@ fn smjson_cases(ctx: &mut Ctx) {
 // ---------------------------------------------------------------------------------------------
 use routee_compass::app::compass::config::cost_model::cost_model_service::CostModelService;
 use routee_compass::app::search::search_app::SearchApp;
+use routee_compass::app::compass::search_orientation::SearchOrientation;
 use routee_compass_core::algorithm::search::search_algorithm::SearchAlgorithm;
 use routee_compass_core::algorithm::search::search_error::SearchError;
 use routee_compass_core::model::access::access_model_service::AccessModelService;
@@ -2298,7 +2311,13 @@ fn run_bsi(ctx: &mut Ctx, idx: usize, u: usize, cfg: Vec<(String, Feat)>, trs: V
         let weights: HashMap<String, f64> = (0..20).map(|i| (format!("f{}", i), 1.0)).collect();
         let app = SearchApp::new(
             SearchAlgorithm::Dijkstra,
-            Graph { adj: vec![].into_boxed_slice(), rev: vec![].into_boxed_slice(), edges: vec![].into_boxed_slice(), vertices: vec![].into_boxed_slice() },
+            // one vertex, no edge: a destination-less search from vertex 0 ends at once with an empty tree
+            Graph {
+                adj: vec![CompactOrderedHashMap::empty()].into_boxed_slice(),
+                rev: vec![CompactOrderedHashMap::empty()].into_boxed_slice(),
+                edges: vec![].into_boxed_slice(),
+                vertices: vec![Vertex::new(0, 0.0, 0.0)].into_boxed_slice(),
+            },
             Arc::new(StateModel::new(to_sf(&cfg))),
             Arc::new(TmSvc(trs.iter().map(|x| to_sf(x)).collect())),
             Arc::new(AmSvc(acs.iter().map(|x| to_sf(x)).collect())),
@@ -2385,6 +2404,26 @@ fn run_bsi(ctx: &mut Ctx, idx: usize, u: usize, cfg: Vec<(String, Feat)>, trs: V
                 }
                 (Ok(_), Err(k)) => fails.push(("state/per-query-error", format!("query #{} {} was accepted (expected {})", qi, q, k))),
                 (Err(e), Ok(_)) => fails.push(("state/per-query-error", format!("query #{} {} failed: {}", qi, q, e))),
+            }
+            // the whole entry points: the instance they hand back carries the same per-query state model
+            // (the searches themselves belong to C01-C05 / C20)
+            for orientation in [SearchOrientation::Vertex, SearchOrientation::Edge] {
+                let ran = match orientation {
+                    SearchOrientation::Vertex => app.run(q, &orientation).map(|x| x.1),
+                    SearchOrientation::Edge => app.run_edge_oriented(q).map(|x| x.1),
+                };
+                match (&r, &ran) {
+                    (Ok(si), Ok(si2)) => {
+                        if model_s(u, &si.state_model) != model_s(u, &si2.state_model) {
+                            fails.push(("state/per-query-leak", format!("query #{} {}: run() searched with another state model than build_search_instance built", qi, q)));
+                        }
+                    }
+                    (Err(_), Ok(_)) => fails.push(("state/per-query-error", format!("query #{} {}: run() succeeded although build_search_instance fails", qi, q))),
+                    _ => {}
+                }
+                if model_s(u, &app.state_model) != cfg_before {
+                    fails.push(("state/per-query-leak", format!("query #{} {}: run() changed the application's state model", qi, q)));
+                }
             }
             let names_joined = app.state_model.get_names();
             let names_list: Vec<String> = if names_joined.is_empty() { vec![] } else { names_joined.split(',').map(|x| x.to_string()).collect() };
